@@ -7,8 +7,8 @@ namespace Hctl.C04
 open Hctl Kripke
 
 variable {E : Env} (hE : EnvOK E) (hG : GraphWF E.G) {K : SemCtx} (hK : CtxOK E K) {U0 : CSet}
-  (hKS : KeySem E K U0) (hKW : KeyWild E K U0) (hA : C12.GraphAsync E.G) (hattr : AttrSpec E)
-include hE hG hK hKS hKW hA hattr
+  (hKS : KeySem E K U0) (hKW : KeyWild E K U0) (hA : C12.GraphAsync E.G)
+include hE hG hK hKS hKW hA
 
 /-- MAIN (one call, any history): from EVERY context satisfying the cache invariant — i.e. after any sequence of
 previous evaluations, with any duplicate counters — `eval_node` returns exactly the satisfaction set of its
@@ -17,14 +17,14 @@ theorem cache_transparent (t : Tree) (U : CSet) (ds : List (Option Name)) (ctx :
     (hq : GoodQ E K U0 t U ds) (hf : ctx.fvd = fvdOf ds) (hc : CacheOK E K U0 ctx) :
     ∃ r ctx', Eval.evalNode E (Ops.steadyOf E U0) t U ctx = .ok (r, ctx') ∧
       Sem E r U (sat E.G K t) ∧ CacheOK E K U0 ctx' ∧ ctx'.fvd = ctx.fvd :=
-  evalNode_sound hE hG hK hKS hKW hA hattr t U ds ctx hq hf hc
+  evalNode_sound hE hG hK hKS hKW hA t U ds ctx hq hf hc
 
 /-- … hence it equals the cache-free evaluator (sharing disabled) -/
 theorem cached_eq_pure (t : Tree) (U : CSet) (ds : List (Option Name)) (ctx : ECtx)
     (hq : GoodQ E K U0 t U ds) (hf : ctx.fvd = fvdOf ds) (hc : CacheOK E K U0 ctx) :
     ∃ r ctx', Eval.evalNode E (Ops.steadyOf E U0) t U ctx = .ok (r, ctx') ∧
       EqOn E.pts r (Eval.evalPure E (Ops.steadyOf E U0) K.wild K.dom t U) := by
-  obtain ⟨r, ctx', he, hs, _, _⟩ := cache_transparent hE hG hK hKS hKW hA hattr t U ds ctx hq hf hc
+  obtain ⟨r, ctx', he, hs, _, _⟩ := cache_transparent hE hG hK hKS hKW hA t U ds ctx hq hf hc
   exact ⟨r, ctx', he, hs.eqOn (evalPure_correct hE hG K hK U0 _ t ds.length U hq.wscoped.wellNamed hq.domsIn hq.unit)⟩
 
 /-- MAIN (batches): folding `eval_node` over a list of formulae with ONE threaded context returns, position by
@@ -39,7 +39,7 @@ theorem batch_sound : ∀ (trees : List Tree) (ctx : ECtx), (∀ t ∈ trees, Go
   | cons t ts ih =>
     intro ctx hq hf hc
     obtain ⟨r, ctx', he, hs, hc', hf'⟩ :=
-      evalNode_sound hE hG hK hKS hKW hA hattr t U0 [] ctx (hq t (by simp)) (by simpa [fvdOf, fvdFrom] using hf) hc
+      evalNode_sound hE hG hK hKS hKW hA t U0 [] ctx (hq t (by simp)) (by simpa [fvdOf, fvdFrom] using hf) hc
     obtain ⟨rs, hev, hlen, hall⟩ := ih ctx' (fun t' ht' => hq t' (by simp [ht'])) (hf'.trans hf) hc'
     refine ⟨r :: rs, by simp [Api.evalAll, he, hev], by simp [hlen], ?_⟩
     intro i hi hi'
@@ -56,8 +56,8 @@ theorem batch_results_agree (trees1 trees2 : List Tree) (ctx1 ctx2 : ECtx)
       Api.evalAll E (Ops.steadyOf E U0) U0 trees2 ctx2 = .ok rs2 ∧
       ∀ i j (hi : i < trees1.length) (hj : j < trees2.length) (hi' : i < rs1.length) (hj' : j < rs2.length),
         trees1[i] = trees2[j] → EqOn E.pts rs1[i] rs2[j] := by
-  obtain ⟨rs1, he1, _, h1⟩ := batch_sound hE hG hK hKS hKW hA hattr trees1 ctx1 hq1 hf1 hc1
-  obtain ⟨rs2, he2, _, h2⟩ := batch_sound hE hG hK hKS hKW hA hattr trees2 ctx2 hq2 hf2 hc2
+  obtain ⟨rs1, he1, _, h1⟩ := batch_sound hE hG hK hKS hKW hA trees1 ctx1 hq1 hf1 hc1
+  obtain ⟨rs2, he2, _, h2⟩ := batch_sound hE hG hK hKS hKW hA trees2 ctx2 hq2 hf2 hc2
   refine ⟨rs1, rs2, he1, he2, ?_⟩
   intro i j hi hj hi' hj' heq
   have a := h1 i hi hi'
@@ -65,7 +65,7 @@ theorem batch_results_agree (trees1 trees2 : List Tree) (ctx1 ctx2 : ECtx)
   rw [heq] at a
   exact a.eqOn b
 
-omit hK hKS hKW hA hattr in
+omit hK hKS hKW hA in
 /-- with an empty context (no wild-cards) ANY duplicate map whose keys have at most one variable gives an
 invariant-satisfying initial context; the empty map (sharing disabled) trivially so -/
 theorem init_cacheOK_plain (D : DupMap)
@@ -75,7 +75,7 @@ theorem init_cacheOK_plain (D : DupMap)
   ⟨fun _ _ _ h => by simp [cacheGet] at h, fun _ _ h => by simp [noCtx, noCtx'] at h,
    fun _ _ h => by simp [noCtx, noCtx'] at h, hD⟩
 
-omit hK hKS hKW hA hattr in
+omit hK hKS hKW hA in
 theorem init_cacheOK_noSharing : CacheOK E noCtx U0 { dups := [] } :=
   init_cacheOK_plain hE hG [] (fun _ _ h => by simp [dupGet] at h)
 
